@@ -31,3 +31,15 @@ CLAIMED['C20'] = (
     NOTE_COMMON + 'DFS enter/exit ordering, post-order and cycle-check exactness are modelled and correspondence-checked; their theorems '
     'are not proved yet (listed as partial in the evidence). Traversal theorems are partial-correctness (fuel).',
     'Lean 4 proof (loop invariants for Kahn and the work-list traversal) + differential correspondence of event logs')
+CLAIMED['C05'] = (
+    'DESIGN.md 5/C05',
+    'Theorems for all circuits, output selections and assignments: every clause template (regenerated from the code for arity<=4 '
+    'and shown equal to the model template; the model templates proved exact at EVERY accepted arity, incl. n-ary AND/OR/NAND/NOR by '
+    'induction and XOR/NXOR parity clauses) ; the literal allocation (inputs first: input i = variable i+1; operands before the gate) '
+    'and recursion of tseytin_transformation maintain an invariant from which: CNF + total input assignment is satisfiable iff all '
+    'selected outputs evaluate to True, the satisfying extension gives every encoded gate its evaluated value (and is unique), and the '
+    'satisfiability query with any sound+complete solver answers True iff some input makes all outputs True. Clause lists and literal '
+    'maps of the real transformation are compared exactly with the model on every run.',
+    NOTE_COMMON + 'pysat is absent in this sandbox: a shim (DPLL / z3 -dimacs, models re-checked) stands in for the solver; the solver is '
+    'a parameter of the theorem. Python recursion limit not modelled.',
+    'Lean 4 proof (template exactness by induction, allocation invariant, rank induction) + regenerated templates + exact CNF correspondence')
